@@ -1565,16 +1565,20 @@ class Stream(AbstractStream):
         if s1.chemicals is chemicals: 
             s1.mol[:] = values
         else:
-            CASs, values = zip(*[(i, j) for i, j in zip(chemicals.CASs, values) if j])
             s1.empty()
-            s1._imol[CASs] = values
+            CASs_values = [(i, j) for i, j in zip(chemicals.CASs, values) if j]
+            if CASs_values:
+                CASs, values = zip(*CASs_values)
+                s1._imol[CASs] = values
         values = dummy
         if s2.chemicals is chemicals:
             s2.mol[:] = values
         else:
             s2.empty()
-            CASs, values = zip(*[(i, j) for i, j in zip(chemicals.CASs, values) if j])
-            s2._imol[CASs] = values
+            CASs_values = [(i, j) for i, j in zip(chemicals.CASs, values) if j]
+            if CASs_values:
+                CASs, values = zip(*CASs_values)
+                s2._imol[CASs] = values
             
         
     def link_with(self, other: Stream, 
